@@ -439,8 +439,10 @@ func init() {
 	register(&Prop{
 		ID: "C16", Engine: "server",
 		Generate: genC16, Decode: decodeC16, Execute: execC16,
-		Config: func(any) simrt.Config { return simrt.Config{MaxSteps: 200000, IdleProbe: 4 * time.Second} },
-		Runs:   clientRuns(40000, 4000000),
+		Config: func(any) simrt.Config {
+			return simrt.Config{MaxSteps: 200000, IdleProbe: 4 * time.Second, ClockJumpPM: 10}
+		},
+		Runs: clientRuns(40000, 4000000),
 		Floors: []Floor{
 			{Name: "phase-x-handler-x-timing", Count: func(t string) int { return len(c16Floor(t)) }, Scenario: func(t string, i int) any { return c16Floor(t)[i] }},
 			{Name: "single-preemption", Sweep: true, Count: func(t string) int { return len(c16SweepFloor(t)) }, Scenario: func(t string, i int) any { return c16SweepFloor(t)[i] }},
